@@ -13,6 +13,12 @@ Decided (necessary conditions):
   R4  TaskJournal index arithmetic (finite exhaustive interpretation of its methods' AST);
   R5  InternalDBOSAdapter implements the adapter interface incl. the replay-relevant hooks, and the decorators of the DBOS
       server chain forward those hooks.
+  R6  boundary agreement of the recovery clean-up: every JournalCrud method that deletes the rows beyond a bound starts
+      exactly one past the last row this execution consumed — strict `>` when its caller passes a *last used* id
+      (`get_local_dbos_context().function_id`), `>=` when it passes a *first free* index (`len(entries)`), with any `± k`
+      on either side accounted for — and the Postgres and SQLite implementations agree.  The kind of the bound is derived
+      from the expression that produces it (followed through parameters to the call sites); a producer that cannot be
+      classified is exit 2, never a guess.
 
 Not decided: DBOS's own replay guarantees, cross-process delivery, equality of values after replay, and the fact (observation)
 that the *timeout* outcome of wait_for_next_task is not journalled.
@@ -22,13 +28,14 @@ from __future__ import annotations
 
 import ast
 import itertools
+import re
 
 from ..absint import Interp, Raised, Record, Unsupported
 from ..astx import call_name, dotted, enclosing_stmt, expand, kwarg, last, reaching_def
 from ..cfg import CFG
 from ..index import AnchorError, FuncNode, enclosing_class, enclosing_function, parent, qualname_of, walk_shallow
-from ..selftest import Twin
-from .c26 import abstract_methods, fn_params, method, need_method, returned_class, strip_await  # shared helpers live in c26.py
+from ..selftest import Twin, multi
+from .c26 import abstract_methods, fn_params, method, need_method, returned_class, sql_statements, strip_await  # shared helpers live in c26.py
 
 EXPLANATION = (
     "Static necessary-condition rules for deterministic DBOS replay. "
@@ -45,10 +52,19 @@ EXPLANATION = (
     "R4: record / advance / is_replaying / next_expected_key are interpreted (AST only) for journals of length 0..3 and every "
     "protocol run of up to 5 further waits, including the non-deterministic fallback: seq_num of every insert equals the number of rows "
     "before it, is_replaying ⇔ next_expected_key is not None, the i-th replayed key is the i-th row (exhaustive over that finite domain). "
-    "R5: interface / forwarding inventory. Not decided: DBOS replay guarantees, value equality after replay, the un-journalled timeout outcome."
+    "R5: interface / forwarding inventory. "
+    "R6: for each abstract JournalCrud method whose implementations issue `DELETE … WHERE … <col> <ineq> <placeholder>` with the placeholder bound to a "
+    "method parameter, the WHERE conjunct is normalised (reversed operands, NOT(…), `placeholder ± k`) to `deletes from bound+f upwards`; every call site of "
+    "the method inside llama_agents.dbos is found and the argument is classified from its producing expression: len(<seq>) = first free index (rows 0..n-1 "
+    "exist; R4 shows seq_num of an insert equals the row count), get_local_dbos_context().function_id = last used id (DBOS increments before each durable "
+    "operation — trusted), `x ± int` shifts, locals are expanded, a parameter is followed to all call sites of its method (they must agree), anything else is exit 2. "
+    "Obligation per implementation and call site: caller offset + f = 1 for last-used, 0 for first-free; plus one sibling-agreement obligation per method. "
+    "One too low purges the recorded output of the last completed operation (re-executed on the next recovery); one too high keeps a stale row of a crashed recovery. "
+    "Not decided: DBOS replay guarantees, value equality after replay, the un-journalled timeout outcome."
 )
-TRUSTED = ["CPython ast", "DBOS step memoisation and workflow recovery", "asyncio task scheduling given the journalled order"]
-LEVEL_TEXT = "static necessary-condition rules (effect lint over a resolved call graph, CFG pairing, finite interpretation of the journal arithmetic)"
+TRUSTED = ["CPython ast", "DBOS step memoisation and workflow recovery", "asyncio task scheduling given the journalled order",
+           "DBOSContext.function_id is the id of the last durable operation started (incremented before use)", "SQL integer comparison semantics"]
+LEVEL_TEXT = "static necessary-condition rules (effect lint over a resolved call graph, CFG pairing, finite interpretation of the journal arithmetic, producer/consumer bound agreement of range deletes)"
 LEVEL_NOTE = "A pass means no un-memoised nondeterminism source and a well-formed journal protocol; it does not prove that a recovered run reaches the same result (DBOS semantics are trusted)."
 TECHNIQUE = "ast call graph with stated resolution classes + CFG must-pass + AST interpretation over a finite domain"
 
@@ -920,6 +936,218 @@ def rule_r5(chk) -> None:
     chk.floor("C27.R5", "replay-relevant hooks defined by chain decorators", n, 4)
 
 
+# ======================================================================================= R6: bound agreement of range deletes
+
+CRUD = "llama_agents.dbos.journal.crud"
+DBOS_PKG = "llama_agents.dbos"
+_PH = r"(?:\$\d+|\?)"
+_COL = r"[A-Za-z_][A-Za-z_0-9.]*"
+_CMP = r"(?:>=|<=|>|<|=)"
+_CONJ = re.compile(
+    rf"^\s*(?P<not>NOT\s*)?\(?\s*(?:(?P<col>{_COL})\s*(?P<op>{_CMP})\s*(?P<ph>{_PH})\s*(?:(?P<sg>[+-])\s*(?P<k>\d+))?|"
+    rf"(?P<ph2>{_PH})\s*(?:(?P<sg2>[+-])\s*(?P<k2>\d+))?\s*(?P<op2>{_CMP})\s*(?P<col2>{_COL}))\s*\)?\s*;?\s*$", re.I)
+_FLIP = {">": "<", "<": ">", ">=": "<=", "<=": ">=", "=": "="}
+_NEG = {">": "<=", "<": ">=", ">=": "<", "<=": ">"}
+
+
+def _range_conjuncts(sq) -> list[tuple[str, str, int, ast.AST | None]]:
+    """Inequality conjuncts of a DELETE's WHERE clause as (column, 'above' | 'below', first deleted offset, bound expr):
+    `col > p` deletes from p+1 upwards -> ('above', 1); `col >= p` -> ('above', 0); `col >= p + 1` -> ('above', 1);
+    reversed operands and NOT(…) are normalised.  An inequality the reader cannot normalise is exit 2."""
+    text = " ".join(sq.text.split())
+    mm = re.search(r"\bWHERE\b(.*)$", text, re.I)
+    if not mm:
+        return []
+    where = mm.group(1)
+    if not re.search(r"[<>]", where):
+        return []
+    if re.search(r"\b(OR|BETWEEN|SELECT)\b", where, re.I):
+        raise AnchorError(f"C27.R6: WHERE clause `{where.strip()[:80]}` mixes an inequality with OR / BETWEEN / a subquery; the bound reader does not model it")
+    before = text[: mm.start(1)]
+    out = []
+    pos = len(before)
+    for part in re.split(r"\bAND\b", where, flags=re.I):
+        qn = text[:pos].count("?")
+        pos += len(part) + 3
+        if not re.search(r"[<>]", part):
+            continue
+        m = _CONJ.match(part)
+        if not m or part.count("(") != part.count(")"):
+            raise AnchorError(f"C27.R6: cannot read the range condition `{part.strip()[:60]}`")
+        if m.group("col"):
+            col, op, ph, k = m.group("col"), m.group("op"), m.group("ph"), int(m.group("k") or 0) * (-1 if m.group("sg") == "-" else 1)
+        else:  # `p + k OP col`  ==  `col FLIP(OP) p + k`
+            col, op, ph, k = m.group("col2"), _FLIP[m.group("op2")], m.group("ph2"), int(m.group("k2") or 0) * (-1 if m.group("sg2") == "-" else 1)
+        if op == "=":
+            continue
+        if m.group("not"):
+            op = _NEG[op]
+        bound = sq._bind(ph, qn)
+        if op in (">", ">="):
+            out.append((col.split(".")[-1].lower(), "above", k + (1 if op == ">" else 0), bound if isinstance(bound, ast.AST) else None))
+        else:
+            out.append((col.split(".")[-1].lower(), "below", k - (1 if op == "<" else 0), bound if isinstance(bound, ast.AST) else None))
+    return out
+
+
+def _is_ctx_call(e: ast.AST | None) -> bool:
+    e = strip_await(e)
+    return isinstance(e, ast.Call) and last(call_name(e)) == "get_local_dbos_context"
+
+
+def _dbos_modules(repo):
+    return [m for name, m in sorted(repo.modules.items()) if name == DBOS_PKG or name.startswith(DBOS_PKG + ".")]
+
+
+def _call_sites(repo, meth: str, skip_classes: set[str]) -> list[tuple[object, ast.AST, ast.Call]]:
+    out = []
+    for m in _dbos_modules(repo):
+        for c in ast.walk(m.tree):
+            if isinstance(c, ast.Call) and isinstance(c.func, ast.Attribute) and c.func.attr == meth:
+                fn = enclosing_function(c)
+                cls = enclosing_class(c)
+                if fn is None or (cls is not None and cls.name in skip_classes):
+                    continue
+                out.append((m, fn, c))
+    return out
+
+
+def _arg_for(call: ast.Call, fn_like_params: list[str], pname: str) -> ast.AST | None:
+    """Argument of `call` that binds parameter `pname` of a method whose parameters (incl. self) are `fn_like_params`."""
+    for k in call.keywords:
+        if k.arg == pname:
+            return k.value
+    if any(isinstance(a, ast.Starred) for a in call.args) or any(k.arg is None for k in call.keywords):
+        return None
+    i = fn_like_params.index(pname) - 1  # bound method call: self is implicit
+    return call.args[i] if 0 <= i < len(call.args) else None
+
+
+def classify_bound(repo, e: ast.AST, at: ast.AST, fn: ast.AST, depth: int = 0) -> tuple[str, int, str]:
+    """What an integer bound denotes, from the expression that produces it: ('first-free' | 'last-used', offset, how).
+    first-free: `len(<sequence>)` — the number of rows 0..n-1 present, i.e. the first index not in use;
+    last-used : `<get_local_dbos_context()>.function_id` — DBOS increments the counter *before* each durable operation, so
+                what is read is the id of the last operation already started;
+    `x ± <int>` shifts the offset; a parameter is followed to every call site of its method inside llama_agents.dbos
+    (all must agree).  Anything else is exit 2: the rule never guesses the kind of a bound."""
+    if depth > 4:
+        raise AnchorError("C27.R6: bound producer chain deeper than 4 calls")
+    e = strip_await(e)
+    if isinstance(e, ast.Name):
+        d = reaching_def(e.id, at)
+        if d is not None:
+            return classify_bound(repo, d, at, fn, depth)
+        if e.id in fn_params(fn):
+            cls = enclosing_class(fn)
+            sites = _call_sites(repo, fn.name, set())
+            sites = [(m, f, c) for m, f, c in sites if f is not fn]
+            if not sites:
+                raise AnchorError(f"C27.R6: `{qualname_of(fn)}` is given the bound as parameter `{e.id}` but has no call site in {DBOS_PKG}")
+            kinds = []
+            for m, f, c in sites:
+                a = _arg_for(c, fn_params(fn) if cls is not None else ["<none>"] + fn_params(fn), e.id)
+                if a is None:
+                    raise AnchorError(f"C27.R6: cannot bind parameter `{e.id}` of `{qualname_of(fn)}` at its call in {qualname_of(f)}")
+                k, off, how = classify_bound(repo, a, c, f, depth + 1)
+                kinds.append((k, off, f"{how} → {qualname_of(fn).split('.')[-1]}({e.id})"))
+            if len({(k, o) for k, o, _h in kinds}) != 1:
+                raise AnchorError(f"C27.R6: call sites of `{qualname_of(fn)}` pass bounds of different kinds for `{e.id}`: {sorted({(k, o) for k, o, _h in kinds})}")
+            return kinds[0]
+        raise AnchorError(f"C27.R6: cannot classify the bound `{e.id}` in {qualname_of(fn)} (no single straight-line definition)")
+    if isinstance(e, ast.BinOp) and isinstance(e.op, (ast.Add, ast.Sub)):
+        sign = 1 if isinstance(e.op, ast.Add) else -1
+        if isinstance(e.right, ast.Constant) and isinstance(e.right.value, int) and not isinstance(e.right.value, bool):
+            k, off, how = classify_bound(repo, e.left, at, fn, depth)
+            return k, off + sign * e.right.value, how
+        if sign == 1 and isinstance(e.left, ast.Constant) and isinstance(e.left.value, int) and not isinstance(e.left.value, bool):
+            k, off, how = classify_bound(repo, e.right, at, fn, depth)
+            return k, off + e.left.value, how
+    if isinstance(e, ast.Call) and isinstance(e.func, ast.Name) and e.func.id == "len" and len(e.args) == 1:
+        return "first-free", 0, f"len({ast.unparse(e.args[0])})"
+    if isinstance(e, ast.Attribute) and e.attr == "function_id":
+        base = e.value
+        if isinstance(base, ast.Name):
+            base = reaching_def(base.id, at)
+        if _is_ctx_call(base):
+            return "last-used", 0, "get_local_dbos_context().function_id"
+    raise AnchorError(f"C27.R6: cannot classify the bound `{ast.unparse(e)[:60]}` in {qualname_of(fn)} as first-free / last-used")
+
+
+def rule_r6(chk) -> None:
+    """The recovery clean-up deletes `everything beyond what this execution has consumed` from two tables.  Each range
+    DELETE must start exactly one past the last consumed row: for a bound that is the *last used* id the comparison is
+    strict (`>`), for a bound that is the *first free* index it is `>=`.  One too low deletes the recorded output of the
+    last completed operation (re-executed on the next recovery: the replayed part differs from the recorded one); one too
+    high leaves a stale row of a crashed recovery in place (it is replayed as if this execution had produced it)."""
+    repo = chk.repo
+    mc, base = repo.cls(f"{CRUD}:JournalCrud")
+    impls = [repo.cls(ref) for ref in repo.subclasses(f"{CRUD}:JournalCrud")]
+    chk.floor("C27.R6", "JournalCrud implementations", len(impls), 2)
+    abst = abstract_methods(base)
+    shapes: dict[str, dict[str, list]] = {}  # method -> impl class -> [(col, dir, first, pname, sql)]
+    n_stmts = 0
+    for mm, cls in impls:
+        for meth in abst:
+            fn = method(cls, meth)
+            if fn is None:
+                continue
+            for sq in sql_statements(fn):
+                if sq.verb != "DELETE":
+                    continue
+                for col, direction, first, bound in _range_conjuncts(sq):
+                    b = expand(bound, sq.call) if bound is not None else None
+                    if not (isinstance(b, ast.Name) and b.id in fn_params(fn)):
+                        raise AnchorError(f"C27.R6: the range bound of the DELETE in {cls.name}.{meth} is `{ast.unparse(b) if b is not None else '?'}`, not a parameter of the method")
+                    shapes.setdefault(meth, {}).setdefault(cls.name, []).append((col, direction, first, b.id, sq, mm, fn))
+                    n_stmts += 1
+    chk.floor("C27.R6", "JournalCrud methods that delete a range of rows beyond a bound", len(shapes), 2)
+    chk.floor("C27.R6", "range DELETE statements read", n_stmts, 4)
+    impl_names = {cls.name for _mm, cls in impls} | {base.name}
+    n_sites = 0
+    for meth, per_cls in sorted(shapes.items()):
+        # ---- sibling agreement
+        sig = {cn: sorted((col, d, f) for col, d, f, _p, _s, _m, _f in lst) for cn, lst in per_cls.items()}
+        missing = sorted(cls.name for _mm, cls in impls if cls.name not in per_cls)
+        agree = len({tuple(v) for v in sig.values()}) == 1 and not missing
+        any_ = next(iter(per_cls.values()))[0]
+        chk.ob("C27.R6", f"every JournalCrud implementation of `{meth}` deletes the same range relative to its bound", agree, m=any_[5], node=any_[4].call, fn=any_[6],
+               instance=f"{meth}:sibling-agreement",
+               reason=("; ".join(f"{cn}: " + ", ".join(f"{col} from bound{f:+d} {d}" for col, d, f in v) for cn, v in sorted(sig.items()))
+                       + (f"; no range condition in {missing}" if missing else "") + " — the back ends recover differently from the same journal"))
+        # ---- producer / consumer agreement
+        pnames = {p for lst in per_cls.values() for _c, _d, _f, p, _s, _m, _fn in lst}
+        if len(pnames) != 1:
+            raise AnchorError(f"C27.R6: implementations of `{meth}` bound their range on different parameters {sorted(pnames)}")
+        pname = pnames.pop()
+        abs_fn = need_method(mc, base, meth)
+        sites = _call_sites(repo, meth, impl_names)
+        if not sites:
+            raise AnchorError(f"C27.R6: `{meth}` has no call site in {DBOS_PKG}; the kind of its bound cannot be established")
+        for m, f, c in sites:
+            a = _arg_for(c, fn_params(abs_fn), pname)
+            if a is None:
+                raise AnchorError(f"C27.R6: cannot bind `{pname}` at the call of `{meth}` in {qualname_of(f)}")
+            kind, off, how = classify_bound(repo, a, c, f)
+            n_sites += 1
+            want = 1 if kind == "last-used" else 0
+            for cn, lst in sorted(per_cls.items()):
+                for col, direction, first, _p, sq, mm, fn in lst:
+                    start = off + first
+                    ok = direction == "above" and start == want
+                    if direction != "above":
+                        why = f"the DELETE removes the rows at or *below* the bound: everything this execution has consumed"
+                    elif start < want:
+                        why = (f"the bound is {how} = the {kind.replace('-', ' ')} {col} ({'offset %+d, ' % off if off else ''}so the last consumed row is bound{want - 1:+d}), but the DELETE starts at bound{start:+d}: "
+                               "it also removes the record of the last completed operation, which the next recovery then executes again instead of replaying")
+                    else:
+                        why = (f"the bound is {how} = the {kind.replace('-', ' ')} {col}, the first row this execution has not produced is bound{want:+d}, but the DELETE starts at bound{start:+d}: "
+                               "a stale row left there by a crashed recovery survives and is replayed as if this execution had produced it")
+                    chk.ob("C27.R6", f"`{cn}.{meth}` starts deleting exactly one past the last consumed {col} (caller passes a {kind} bound)", ok, m=mm, node=sq.call, fn=fn,
+                           instance=f"{cn}.{meth}:{kind}-bound<-{qualname_of(f).split('.')[-1]}", reason=why if not ok else "",
+                           path=[f"producer: {how}", f"call: {' '.join(ast.unparse(c).split())[:90]} in {qualname_of(f)}", f"consumer: {' '.join(sq.text.split())[:110]}"] if not ok else None)
+    chk.floor("C27.R6", "call sites of range deletes whose bound was classified", n_sites, 2)
+
+
 def run(chk) -> None:
     from ._engine import engine_view
     chk.extra["helpers_inlined"] = engine_view(chk.repo)
@@ -930,6 +1158,7 @@ def run(chk) -> None:
     rule_r3(chk)
     rule_r4(chk)
     rule_r5(chk)
+    rule_r6(chk)
     chk.observe("C27: the journal's alphabet covers completed tasks only; the timeout outcome of wait_for_next_task (completed=None, after which the runner pops due timer "
                 "ticks) is not journalled, so a recovery in which a memoised step finishes before a timer that originally fired first could order ticks differently. "
                 "Not reproducible here (DBOS is not installed); observation only, not part of the verdict.")
@@ -954,7 +1183,32 @@ def _wf_helper_twin(name: str, expect: str | None, *, deco: str = "    @staticme
     return Twin(name, _RT, _WF_HEAD + _WF_LOOP, helper + _WF_HEAD + f"        started = {call}\n", expect)
 
 
+_CRUD = "packages/llama-agents-dbos/src/llama_agents/dbos/journal/crud.py"
+_PG_OPS = 'f"WHERE workflow_uuid = $1 AND function_id > $2",'
+_SL_OPS = '"WHERE workflow_uuid = ? AND function_id > ?",'
+_PG_TR = 'f"DELETE FROM {self._table_ref} WHERE run_id = $1 AND seq_num >= $2",'
+_SL_TR = 'f"DELETE FROM {self._table_ref} WHERE run_id = ? AND seq_num >= ?",'
+_TJ_OPS = "        await self._crud.purge_operations_from(self._run_id, current_fid)\n"
+_TJ_TR = "        await self._crud.truncate_from(self._run_id, len(self._entries))\n"
+
 TWINS = [
+    # ---- R6 (range deletes start exactly one past the last consumed row; producer kind ↔ comparison; sibling agreement)
+    Twin("R6 orphan purge made inclusive in both back ends (seed form)", _CRUD,
+         *multi(_CRUD, [(_PG_OPS, _PG_OPS.replace("> $2", ">= $2")), (_SL_OPS, _SL_OPS.replace("> ?", ">= ?"))]), "C27.R6"),
+    Twin("R6 orphan purge made inclusive in the SQLite back end only", _CRUD, _SL_OPS, _SL_OPS.replace("> ?", ">= ?"), "C27.R6"),
+    Twin("R6 journal truncation made strict (postgres): stale row at the first free index survives", _CRUD, _PG_TR, _PG_TR.replace(">= $2", "> $2"), "C27.R6"),
+    Twin("R6 journal truncation made strict, written with reversed operands (sqlite)", _CRUD, _SL_TR, _SL_TR.replace("seq_num >= ?", "? < seq_num"), "C27.R6"),
+    Twin("R6 caller shifts the last-used bound by one", _TJ, _TJ_OPS, _TJ_OPS.replace("current_fid)", "current_fid + 1)"), "C27.R6"),
+    Twin("R6 caller passes the last index instead of the length", _TJ, _TJ_TR, _TJ_TR.replace("len(self._entries))", "len(self._entries) - 1)"), "C27.R6"),
+    Twin("R6 orphan purge deletes the consumed side", _CRUD, _PG_OPS, _PG_OPS.replace("> $2", "<= $2"), "C27.R6"),
+    Twin("R6 benign: reversed operands", _CRUD, *multi(_CRUD, [(_PG_OPS, _PG_OPS.replace("function_id > $2", "$2 < function_id")), (_SL_OPS, _SL_OPS.replace("function_id > ?", "? < function_id"))]), None),
+    Twin("R6 benign: NOT (col < bound) for >=", _CRUD, _SL_TR, _SL_TR.replace("seq_num >= ?", "NOT (seq_num < ?)"), None),
+    Twin("R6 benign: >= bound + 1 for a last-used bound (both back ends)", _CRUD,
+         *multi(_CRUD, [(_PG_OPS, _PG_OPS.replace("> $2", ">= $2 + 1")), (_SL_OPS, _SL_OPS.replace("> ?", ">= ? + 1"))]), None),
+    Twin("R6 benign: first free index held in a local, keyword arguments", _TJ, _TJ_TR,
+         "        first_free = len(self._entries)\n        await self._crud.truncate_from(run_id=self._run_id, seq_num=first_free)\n", None),
+    Twin("R6 benign: context counter read through a renamed local", _RT, "        current_fid = ctx.function_id\n\n        await journal.purge_stale(current_fid)\n",
+         "        last_fid: int = ctx.function_id\n        current_fid = last_fid\n\n        await journal.purge_stale(current_fid)\n", None),
     Twin("R2 replay wait without shield", _RT, "                    await asyncio.wait_for(asyncio.shield(target_task), timeout=timeout)", "                    await asyncio.wait_for(target_task, timeout=timeout)", "C27.R2"),
     Twin("R2 benign: shield bound to a local first", _RT, "                    await asyncio.wait_for(asyncio.shield(target_task), timeout=timeout)", "                    guarded = asyncio.shield(target_task)\n                    await asyncio.wait_for(guarded, timeout=timeout)", None),
 
